@@ -92,6 +92,21 @@ Theorem C08_terminate_never_lost : forall cf tr c,
 Proof. exact terminate_never_lost. Qed.
 Print Assumptions C08_terminate_never_lost.
 
+(* Why the schedule of C08_terminate_reaches_clones lets the clone the root waits for run: the
+   sends of notify_clones are sequential (head-of-line blocking). A schedule exists after which
+   the root has taken Terminate off its queue, clone 2 is live, attached and has drained its
+   command queue, and - whatever the root and clone 2 do from there - clone 2 does not get
+   Terminated, because clone 1 (16 commands pending, not running process()) is ahead of it.
+   Reproduced on the real code by corpus case `k;k;c 0;c 1;d 0;d 1;...;D 2;T;u 1;D 2;F 1;u 2;D 1`. *)
+Theorem C08_terminate_head_of_line :
+  exists cf tr, let s := run cf tr in
+    term_started s = true /\ c_alive (clones s 2) = true /\ c_att (clones s 2) = true /\ c_q (clones s 2) = [] /\
+    length (c_q (clones s 1)) = 16%nat /\
+    forall tr2, (forall a, In a tr2 -> a = ARoot \/ a = ACloneStep 2) ->
+      c_term (clones (run_from cf s tr2) 2) = false.
+Proof. exact terminate_head_of_line. Qed.
+Print Assumptions C08_terminate_head_of_line.
+
 (* A clone's command queue never holds more than COMMAND_QUEUE_LEN commands ... *)
 Theorem C08_clone_queue_bounded : forall cf tr c,
   N.of_nat (length (c_q (clones (run cf tr) c))) <= cmd_queue_len.
